@@ -1,30 +1,37 @@
 ----------------------------- MODULE DiscoveryMC -----------------------------
 (* Sanity of the definitions in Discovery.tla over a family of trees: every  *)
-(* subset of a 13-entry universe (kept closed under parents) x root lists    *)
-(* {top}, {top, top}, {top, sub} x keep:                                     *)
+(* subset of a 17-entry universe (kept closed under parents) x root lists    *)
+(* {top}, {top, top}, {top, sub}, {sub, top} x {none, --usecompiled (= -k)}:     *)
 (*   Found has no duplicates, even with repeated / nested roots;             *)
 (*   Imported is a subsequence of Found; a file below a non-identifier or    *)
-(*   ignored directory is never found; OrphansCore <= Removed <= OrphansAll; *)
+(*   ignored directory is never found; a compiled file is found only with    *)
+(*   --usecompiled and only where its source is absent (one module, one      *)
+(*   file); __init__.pyc makes a package only with --usecompiled;            *)
+(*   OrphansCore <= Removed <= OrphansAll;                                   *)
 (*   nothing with a source sibling is ever removed; keep => nothing removed. *)
 EXTENDS Discovery, TLC
 
-F(id, ig, igd, td, p, st, sf, ini, cmp, sb, pc, rk, br) ==
+F(id, ig, igd, td, p, st, sf, ini, cmp, sb, pc, rk, br, cx, ic) ==
   [ident |-> id, ignF |-> ig, ignD |-> igd, tdir |-> td, py |-> p, stemT |-> st,
-   stemF |-> sf, init |-> ini, comp |-> cmp, sib |-> sb, pyc |-> pc, rank |-> rk, bare |-> br]
+   stemF |-> sf, init |-> ini, comp |-> cmp, sib |-> sb, pyc |-> pc, rank |-> rk, bare |-> br,
+   cext |-> cx, initc |-> ic]
 
+(* "x" stands for a module name the tests pattern matches (ftests under       *)
+(* ^f?tests$): x.py / x.pyc are candidates for discovery and for the cleanup *)
 Names ==
-  [ n_tests_py  |-> F(FALSE, FALSE, FALSE, FALSE, TRUE,  TRUE,  TRUE,  FALSE, FALSE, "", FALSE, 9, FALSE),
-    n_test_a_py |-> F(FALSE, FALSE, FALSE, FALSE, TRUE,  FALSE, TRUE,  FALSE, FALSE, "", FALSE, 8, FALSE),
-    n_other_py  |-> F(FALSE, FALSE, FALSE, FALSE, TRUE,  FALSE, FALSE, FALSE, FALSE, "", FALSE, 6, FALSE),
-    n_init      |-> F(FALSE, FALSE, FALSE, FALSE, TRUE,  FALSE, FALSE, TRUE,  FALSE, "", FALSE, 2, FALSE),
-    n_tests     |-> F(TRUE,  FALSE, FALSE, TRUE,  FALSE, FALSE, FALSE, FALSE, FALSE, "", FALSE, 10, FALSE),
-    n_sub       |-> F(TRUE,  FALSE, FALSE, FALSE, FALSE, FALSE, FALSE, FALSE, FALSE, "", FALSE, 7, FALSE),
-    n_1bad      |-> F(FALSE, FALSE, FALSE, FALSE, FALSE, FALSE, FALSE, FALSE, FALSE, "", FALSE, 1, FALSE),
-    n_git       |-> F(FALSE, TRUE,  TRUE,  FALSE, FALSE, FALSE, FALSE, FALSE, FALSE, "", FALSE, 0, FALSE),
-    n_pycache   |-> F(TRUE,  TRUE,  FALSE, FALSE, FALSE, FALSE, FALSE, FALSE, FALSE, "", TRUE,  3, FALSE),
-    n_x_pyc     |-> F(FALSE, FALSE, FALSE, FALSE, FALSE, FALSE, FALSE, FALSE, TRUE,  "n_x_py", FALSE, 12, FALSE),
-    n_x_py      |-> F(FALSE, FALSE, FALSE, FALSE, TRUE,  FALSE, FALSE, FALSE, FALSE, "", FALSE, 11, FALSE),
-    n_dot_pyc   |-> F(FALSE, FALSE, FALSE, FALSE, FALSE, FALSE, FALSE, FALSE, TRUE,  "n_dot_py", FALSE, 4, TRUE) ]
+  [ n_tests_py  |-> F(FALSE, FALSE, FALSE, FALSE, TRUE,  TRUE,  TRUE,  FALSE, FALSE, "", FALSE, 9, FALSE, FALSE, FALSE),
+    n_test_a_py |-> F(FALSE, FALSE, FALSE, FALSE, TRUE,  FALSE, TRUE,  FALSE, FALSE, "", FALSE, 8, FALSE, FALSE, FALSE),
+    n_other_py  |-> F(FALSE, FALSE, FALSE, FALSE, TRUE,  FALSE, FALSE, FALSE, FALSE, "", FALSE, 6, FALSE, FALSE, FALSE),
+    n_init      |-> F(FALSE, FALSE, FALSE, FALSE, TRUE,  FALSE, FALSE, TRUE,  FALSE, "", FALSE, 2, FALSE, FALSE, FALSE),
+    n_initc     |-> F(FALSE, FALSE, FALSE, FALSE, FALSE, FALSE, FALSE, FALSE, TRUE,  "n_init", FALSE, 5, FALSE, TRUE, TRUE),
+    n_tests     |-> F(TRUE,  FALSE, FALSE, TRUE,  FALSE, FALSE, FALSE, FALSE, FALSE, "", FALSE, 10, FALSE, FALSE, FALSE),
+    n_sub       |-> F(TRUE,  FALSE, FALSE, FALSE, FALSE, FALSE, FALSE, FALSE, FALSE, "", FALSE, 7, FALSE, FALSE, FALSE),
+    n_1bad      |-> F(FALSE, FALSE, FALSE, FALSE, FALSE, FALSE, FALSE, FALSE, FALSE, "", FALSE, 1, FALSE, FALSE, FALSE),
+    n_git       |-> F(FALSE, TRUE,  TRUE,  FALSE, FALSE, FALSE, FALSE, FALSE, FALSE, "", FALSE, 0, FALSE, FALSE, FALSE),
+    n_pycache   |-> F(TRUE,  TRUE,  FALSE, FALSE, FALSE, FALSE, FALSE, FALSE, FALSE, "", TRUE,  3, FALSE, FALSE, FALSE),
+    n_x_pyc     |-> F(FALSE, FALSE, FALSE, FALSE, FALSE, TRUE,  FALSE, FALSE, TRUE,  "n_x_py", FALSE, 12, FALSE, TRUE, FALSE),
+    n_x_py      |-> F(FALSE, FALSE, FALSE, FALSE, TRUE,  TRUE,  FALSE, FALSE, FALSE, "", FALSE, 11, FALSE, FALSE, FALSE),
+    n_dot_pyc   |-> F(FALSE, FALSE, FALSE, FALSE, FALSE, FALSE, FALSE, FALSE, TRUE,  "n_dot_py", FALSE, 4, TRUE, TRUE, FALSE) ]
 
 Ent(p, n, kd) == [parent |-> p, name |-> n, kind |-> kd]
 Universe ==
@@ -35,6 +42,7 @@ Universe ==
     sub           |-> Ent("", "n_sub", "dir"),
     sub_tests     |-> Ent("sub", "n_tests", "dir"),
     sub_tests_init|-> Ent("sub_tests", "n_init", "file"),
+    sub_tests_initc|-> Ent("sub_tests", "n_initc", "file"),
     sub_tests_a   |-> Ent("sub_tests", "n_test_a_py", "file"),
     sub_x_pyc     |-> Ent("sub", "n_x_pyc", "file"),
     bad           |-> Ent("", "n_1bad", "dir"),
@@ -48,33 +56,52 @@ Universe ==
 Closed(S) == \A x \in S : Universe[x].parent = "" \/ Universe[x].parent \in S
 AllRootLists == {<<"">>, <<"", "">>, <<"", "sub">>, <<"sub", "">>}
 
-VARIABLES S, roots, keep, acc
-Init == /\ S = {} /\ roots \in AllRootLists /\ keep \in BOOLEAN /\ acc \in BOOLEAN
+VARIABLES S, roots, keep, usec, acc
+vars == <<S, roots, keep, usec, acc>>
+(* Found reads only usecompiled and Removed only keep, so the two flags are   *)
+(* varied together (--usecompiled implies --keepbytecode); acc (does --module *)
+(* accept the names relative to root "sub") matters only where "sub" is a root *)
+Init == /\ S = {} /\ roots \in AllRootLists /\ keep \in BOOLEAN /\ usec = keep
+        /\ acc \in (IF "sub" \in ToSet(roots) THEN BOOLEAN ELSE {TRUE})
 (* trees grow entry by entry (parents first), so every closed subset is reached *)
 Next == /\ \E x \in DOMAIN Universe \ S :
              /\ Universe[x].parent = "" \/ Universe[x].parent \in S
              /\ S' = S \cup {x}
-        /\ UNCHANGED <<roots, keep, acc>>
-Spec == Init /\ [][Next]_<<S, roots, keep, acc>>
+        /\ UNCHANGED <<roots, keep, usec, acc>>
+Spec == Init /\ [][Next]_vars
 
 T == [entries |-> [x \in S |-> Universe[x]], names |-> Names, roots |-> roots,
-      walk |-> roots, walkT |-> [i \in 1..Len(roots) |-> FALSE], keep |-> keep,
+      walk |-> roots, walkT |-> [i \in 1..Len(roots) |-> FALSE], keep |-> keep, usecompiled |-> usec,
       rootPkg |-> [i \in 1..Len(roots) |-> ""], walkPkg |-> [i \in 1..Len(roots) |-> ""],
       mpats |-> <<[neg |-> FALSE]>>,
       mmatch |-> [f \in S |-> [r \in {"", "sub"} |-> <<IF r = "sub" THEN acc ELSE TRUE>>]]]
 
 Sane == (\A i \in 1..Len(roots) : roots[i] = "" \/ roots[i] \in S) =>
-  /\ NoDup(Found(T))
-  /\ ToSet(Imported(T)) \subseteq ToSet(Found(T))
-  /\ "bad_tests_py" \notin ToSet(Found(T))
-  /\ ("tests_py" \in S /\ "" \in ToSet(roots)) => "tests_py" \in ToSet(Found(T))
-  /\ ("sub_tests_a" \in S /\ "sub_tests_init" \in S) => "sub_tests_a" \in ToSet(Found(T))
-  /\ ("sub_tests_a" \in S /\ "sub_tests_init" \notin S) => "sub_tests_a" \notin ToSet(Found(T))
-  /\ OrphansCore(T) \subseteq OrphansAll(T)
-  /\ Removed(T) \subseteq OrphansAll(T)
-  /\ (~keep => OrphansCore(T) \subseteq Removed(T))
-  /\ (keep => Removed(T) = {})
-  /\ ("x_py" \in S => "x_pyc" \notin Removed(T))
-  /\ "cache_x_pyc" \notin Removed(T) /\ "git_x_pyc" \notin Removed(T)
-  /\ (~keep /\ "x_pyc" \in S /\ "x_py" \notin S /\ "" \in ToSet(roots)) => "x_pyc" \in Removed(T)
+  LET found == Found(T)
+      fs == ToSet(found)
+      removed == Removed(T)
+      oall == OrphansAll(T)
+      ocore == OrphansCore(T)
+      top == "" \in ToSet(roots)
+  IN
+  /\ NoDup(found)
+  /\ OneFilePerModule(T, found)
+  /\ ToSet(Imported(T)) \subseteq fs
+  /\ "bad_tests_py" \notin fs
+  /\ ("tests_py" \in S /\ top) => "tests_py" \in fs
+  /\ ("sub_tests_a" \in fs) <=> /\ "sub_tests_a" \in S
+                             /\ ("sub_tests_init" \in S \/ (usec /\ "sub_tests_initc" \in S))
+  (* compiled files: only with --usecompiled, only where the source is absent *)
+  /\ (~usec => \A f \in fs : Names[Universe[f].name].py)
+  /\ ("x_py" \in S /\ top) => "x_py" \in fs
+  /\ ("x_pyc" \in fs) <=> (usec /\ top /\ "x_pyc" \in S /\ "x_py" \notin S)
+  /\ ("sub_x_pyc" \in fs) <=> (usec /\ "sub_x_pyc" \in S)
+  /\ "git_x_pyc" \notin fs /\ "cache_x_pyc" \notin fs /\ "sub_tests_initc" \notin fs
+  /\ ocore \subseteq oall
+  /\ removed \subseteq oall
+  /\ (~keep => ocore \subseteq removed)
+  /\ (keep => removed = {})
+  /\ ("x_py" \in S => "x_pyc" \notin removed)
+  /\ "cache_x_pyc" \notin removed /\ "git_x_pyc" \notin removed
+  /\ (~keep /\ "x_pyc" \in S /\ "x_py" \notin S /\ top) => "x_pyc" \in removed
 =============================================================================
